@@ -171,6 +171,26 @@ let () =
             | Some l ->
                 let l = List.sort compare (List.map (fun (z, p) -> (z_to_string z, int_of_n p)) l) in
                 print_string ("PLAN" ^ String.concat "" (List.map (fun (z, p) -> " " ^ z ^ ":" ^ string_of_int p) l) ^ "\n"))
+       | "CXN" :: labels ->
+           (* CXN <label>...: the run of Cxn.v from c0; OK <pc> <closing> <bag size> or REJECT <position> <state before> *)
+           let lab = function
+             | "new" -> M.LNew | "take.init" -> M.LTake M.EInit | "take.wait" -> M.LTake M.EWait | "take.disp" -> M.LTake M.EDisp
+             | "take.term" -> M.LTake M.ETerm | "qloop.wait" -> M.LQLoop M.EWait | "qloop.disp" -> M.LQLoop M.EDisp | "qloop.term" -> M.LQLoop M.ETerm
+             | "waitgo" -> M.LWaitGo | "waitskip" -> M.LWaitSkip | "closingseen" -> M.LClosingSeen | "setwaiting" -> M.LSetWaiting
+             | "readend.ok" -> M.LReadEnd true | "readend.err" -> M.LReadEnd false | "dispdone.ok" -> M.LDispDone true | "dispdone.err" -> M.LDispDone false
+             | "qdisp" -> M.LQDisp | "reqclose" -> M.LReqClose false | "reqclose.w" -> M.LReqClose true | "terminated" -> M.LTerminated
+             | s -> failwith ("unknown connection label " ^ s) in
+           let pcs c = (match c.M.pc0 with
+             | M.PNew -> "PNew" | M.PIdle -> "PIdle" | M.PInit -> "PInit" | M.PWait0 -> "PWait0" | M.PWait1 -> "PWait1" | M.PReading -> "PReading"
+             | M.PRead b -> if b then "PRead.ok" else "PRead.err" | M.PTerm -> "PTerm" | M.PDone -> "PDone")
+             ^ (if c.M.closing then " closing" else " open") ^ (if c.M.waiting then " waiting" else "") ^ " queued=" ^ string_of_int (List.length c.M.bag)
+             ^ (match c.M.disp with M.DNone -> "" | M.DRunning -> " dispatcher-running" | M.DWritten -> " dispatcher-written") in
+           let rec go c i = function
+             | [] -> print_string ("OK " ^ pcs c ^ "\n")
+             | l :: r -> (match M.cstep c (lab l) with
+                          | Some c' -> go c' (i + 1) r
+                          | None -> print_string ("REJECT " ^ string_of_int i ^ " " ^ pcs c ^ "\n")) in
+           go M.c0 0 labels
        | ["W"; "RESET"] -> wcfg := M.w_cfg0; print_string "OK\n"
        | "W" :: "PUSH" :: k :: xs -> wdo (M.LPush (hb k, List.map hb xs))
        | ["W"; "STEAL"; k] -> wdo (M.LSteal (hb k))
